@@ -85,7 +85,8 @@ func alpnWithCap(protos []string, spare int) []string {
 func fullCap(s []string) []string { return s[:cap(s)] }
 
 func genResult(r *rand.Rand) (ech.ResolveResult, string) {
-	names := []string{"svc1.example", "svc2.example", "cdn.example.net", "missing.example"}
+	// target names are map keys as they stand: spelled with capitals they are other keys (the third and the last differ in case only)
+	names := []string{"svc1.example", "Svc2.Example", "cdn.example.net", "missing.example", "SVC1.example", "svc2.example"}
 	randIP := func() net.IP {
 		switch r.IntN(8) {
 		case 0:
